@@ -503,3 +503,323 @@ B('j17_gj_branch_last_open', ['C17'], 'R17.b', (RS, "bytestr[:1] == b'[' and byt
 B('j17_gj_empty_raises', ['C17'], 'R17.b', (RS, _GJ_GUARD, "        if not bytestr:\n            raise ValueError('empty body')\n"))
 B('j17_gj_always_false', ['C17'], 'R17.b', (RS, _GJ, "        return False\n"))
 T('j17_gj_len_guard', ['C17'], (RS, _GJ_GUARD, "        if len(bytestr) < 2:\n            return False\n"))
+
+# ------------------------------------------------------------------ fourth pass
+# R17.g: kinds of value in the encoder -- an instance, a plain class, a class with a metaclass.  A conversion method
+# fetched from the object is called only where every kind of class is excluded by the type tests on the way.
+_CONV = '''        if not isinstance(obj, type):
+            if callable(getattr(obj, 'to_dict', None)):
+                return obj.to_dict()
+            if callable(getattr(obj, 'asdict', None)):
+                return obj.asdict()
+            if callable(getattr(obj, 'isoformat', None)):
+                return obj.isoformat()
+'''
+_CONV_NAMES = "('to_dict', 'asdict', 'isoformat')"
+_ENC_CLASS = 'class ClasticJSONEncoder(JSONEncoder):\n'
+
+
+def _conv_loop(guard, inner='callable(converter)'):
+    return (RS, _CONV, '''        if %s:
+            for name in %s:
+                converter = getattr(obj, name, None)
+                if %s:
+                    return converter()
+''' % (guard, _CONV_NAMES, inner))
+
+
+def _conv_helper(test):
+    """The conversions in a module-level helper that answers None for what it takes to be a class."""
+    return [(RS, _ENC_CLASS, '''_CONVERSIONS = %s
+
+
+def _conversion_of(obj):
+    if %s:
+        return None
+    for name in _CONVERSIONS:
+        converter = getattr(obj, name, None)
+        if callable(converter):
+            return converter
+    return None
+
+
+%s''' % (_CONV_NAMES, test, _ENC_CLASS)),
+            (RS, _CONV, '        converter = _conversion_of(obj)\n        if converter is not None:\n            return converter()\n')]
+
+
+T('j17_kind_loop_isinstance', ['C17'], _conv_loop('not isinstance(obj, type)'))
+T('j17_kind_helper_isinstance', ['C17'], *_conv_helper('isinstance(obj, type)'))
+T('j17_kind_isclass', ['C17'], (RS, 'import itertools\n', 'import itertools\nimport inspect\n'), _conv_loop('not inspect.isclass(obj)'))
+T('j17_kind_guard_at_call', ['C17'], _conv_loop('True', 'callable(converter) and not isinstance(obj, type)'))
+T('j17_kind_bound_method_test', ['C17'], (RS, 'import itertools\n', 'import itertools\nimport inspect\n'),
+  _conv_loop('True', 'inspect.ismethod(converter)'))
+T('j17_kind_issubclass_of_type', ['C17'], _conv_loop('not issubclass(type(obj), type)'))
+T('j17_kind_class_answered_first', ['C17'],
+  (RS, _CONV, "        if isinstance(obj, type):\n            if self.dev_mode:\n                return repr(obj)\n"
+              "            raise TypeError('cannot serialize to JSON: %r' % obj)\n"
+              "        for name in " + _CONV_NAMES + ":\n            if callable(getattr(obj, name, None)):\n                return getattr(obj, name)()\n"))
+B('j17_kind_type_is_type', ['C17'], 'R17.g', (RS, 'if not isinstance(obj, type):', 'if type(obj) is not type:'))
+B('j17_kind_dunder_class_eq_type', ['C17'], 'R17.g', (RS, 'if not isinstance(obj, type):', 'if not obj.__class__ == type:'))
+B('j17_kind_type_in_tuple', ['C17'], 'R17.g', (RS, 'if not isinstance(obj, type):', 'if type(obj) not in (type,):'))
+B('j17_kind_helper_type_is_type', ['C17'], 'R17.g', *_conv_helper('type(obj) is type'))
+B('j17_kind_loop_unguarded', ['C17'], 'R17.g', _conv_loop('True'))
+B('j17_kind_loop_guard_on_converter', ['C17'], 'R17.g', _conv_loop('True', 'callable(converter) and not isinstance(converter, type)'))
+B('j17_kind_guard_not_on_last', ['C17'], 'R17.g',
+  (RS, "            if callable(getattr(obj, 'isoformat', None)):\n                return obj.isoformat()\n",
+       "        if callable(getattr(obj, 'isoformat', None)):\n            return obj.isoformat()\n"))
+B('j17_kind_getattr_called_directly', ['C17'], 'R17.g',
+  (RS, _CONV, "        for name in " + _CONV_NAMES + ":\n            if hasattr(obj, name):\n                return getattr(obj, name)()\n"))
+B('j17_kind_only_instances_of_object_excluded', ['C17'], 'R17.g', (RS, 'if not isinstance(obj, type):', 'if not isinstance(obj, (int, float)):'))
+
+# R17.h: renderers are shared by all requests -- nothing on the render path stores what it learns from one request in
+# the renderer / its class / a module-level object / a mutable default and reads it back
+_SR_NEG = '''        resp_mime = self._format_mime_map.get(req_format)
+        if not resp_mime and request.accept_mimetypes:
+            resp_mime = request.accept_mimetypes.best_match(self.mimetypes)
+        if resp_mime not in self._mime_format_map:
+            resp_mime = self._default_mime
+'''
+_BR_CLASS = "class BasicRender(object):\n    _default_mime = 'application/json'\n"
+_BR_INIT_END = "        self.tabular_render = kwargs.pop('tabular_render', default_tabular)\n"
+B('j17_shared_accept_memo_items', ['C17'], 'R17.h',
+  (RS, _BR_INIT_END, _BR_INIT_END + "        self._negotiated = {}\n"),
+  (RS, _SR_NEG, '''        accept = request.headers.get('Accept', '')
+        resp_mime = self._format_mime_map.get(req_format)
+        if not resp_mime and accept in self._negotiated:
+            resp_mime = self._negotiated[accept]
+        if not resp_mime and request.accept_mimetypes:
+            resp_mime = request.accept_mimetypes.best_match(self.mimetypes)
+        if resp_mime not in self._mime_format_map:
+            resp_mime = self._default_mime
+        self._negotiated[accept] = resp_mime
+'''))
+B('j17_shared_class_memo_alias', ['C17'], 'R17.h',
+  (RS, _BR_CLASS, _BR_CLASS + "    _memo = {}\n"),
+  (RS, _SR_NEG, '''        memo = self._memo
+        key = str(request.accept_mimetypes)
+        resp_mime = self._format_mime_map.get(req_format) or memo.get(key)
+        if not resp_mime and request.accept_mimetypes:
+            resp_mime = request.accept_mimetypes.best_match(self.mimetypes)
+        if resp_mime not in self._mime_format_map:
+            resp_mime = self._default_mime
+        memo[key] = resp_mime
+'''))
+B('j17_shared_module_level_last', ['C17'], 'R17.h',
+  (RS, 'class BasicRender(object):\n', '_LAST_MIME = [None]\n\n\nclass BasicRender(object):\n'),
+  (RS, _SR_NEG, '''        resp_mime = self._format_mime_map.get(req_format)
+        if not resp_mime and request.accept_mimetypes:
+            resp_mime = request.accept_mimetypes.best_match(self.mimetypes)
+        if resp_mime not in self._mime_format_map:
+            resp_mime = _LAST_MIME[0] or self._default_mime
+        _LAST_MIME[0] = resp_mime
+'''))
+B('j17_shared_global_statement', ['C17'], 'R17.h',
+  (RS, 'class BasicRender(object):\n', '_last_format = None\n\n\nclass BasicRender(object):\n'),
+  (RS, "        req_format = request.args.get(self.qp_name)  # explicit GET query param\n",
+       "        global _last_format\n        req_format = request.args.get(self.qp_name) or _last_format\n        _last_format = req_format\n"))
+B('j17_shared_sticky_format_attribute', ['C17'], 'R17.h',
+  (RS, "        req_format = request.args.get(self.qp_name)  # explicit GET query param\n",
+       "        req_format = request.args.get(self.qp_name)\n        if req_format:\n            self._sticky_format = req_format\n"
+       "        else:\n            req_format = getattr(self, '_sticky_format', None)\n"))
+B('j17_shared_mutable_default', ['C17'], 'R17.h',
+  (RS, '    def _serialize_to_resp(self, context, request, _route):', '    def _serialize_to_resp(self, context, request, _route, _seen={}):'),
+  (RS, _SR_NEG, _SR_NEG + "        resp_mime = _seen.setdefault(request.path, resp_mime)\n"))
+B('j17_shared_streaming_flag_flips', ['C17'], 'R17.h',
+  (RS, "    def __call__(self, context):\n        if self.streaming:", "    def __call__(self, context):\n        if isinstance(context, list) and len(context) > 1000:\n"
+       "            self.streaming = True\n        if self.streaming:"))
+B('j17_shared_encoder_seen_set', ['C17'], 'R17.h',
+  (RS, "    def default(self, obj):\n", "    _seen = set()\n\n    def default(self, obj):\n        if id(obj) in self._seen:\n            return None\n        self._seen.add(id(obj))\n"))
+B('j17_shared_setattr_last_context', ['C17'], 'R17.h',
+  (RS, "        # not serialized yet, time to guess what the requester wants\n",
+       "        if context is None:\n            context = getattr(self, 'last_context', None)\n        setattr(self, 'last_context', context)\n"))
+T('j17_shared_local_memo', ['C17'],
+  (RS, _SR_NEG, "        chosen = {}\n" + _SR_NEG + "        chosen[req_format] = resp_mime\n        assert chosen\n"))
+T('j17_shared_config_cache', ['C17'],
+  (RS, _BR_CLASS, _BR_CLASS + "    _served_mimes = None\n"),
+  (RS, "        resp_mime = self._format_mime_map.get(req_format)\n",
+       "        if self._served_mimes is None:\n            self._served_mimes = tuple(self._format_mime_map.values())\n"
+       "        resp_mime = self._format_mime_map.get(req_format)\n"),
+  (RS, "            resp_mime = request.accept_mimetypes.best_match(self.mimetypes)\n",
+       "            resp_mime = request.accept_mimetypes.best_match(self._served_mimes)\n"))
+T('j17_shared_write_only_counter', ['C17'],
+  (RS, _BR_CLASS, _BR_CLASS + "    rendered = 0\n"),
+  (RS, "        # not serialized yet, time to guess what the requester wants\n", "        self.rendered += 1\n"))
+T('j17_shared_fresh_response_header', ['C17'],
+  (RS, "        resp.mimetype_params['charset'] = self.encoding\n        return resp\n\n\nclass JSONPRender",
+       "        resp.mimetype_params['charset'] = self.encoding\n        resp.headers['X-Content-Type-Options'] = 'nosniff'\n        return resp\n\n\nclass JSONPRender"))
+# a request-independent value, written once -- but by whichever request asks for html first, and read before the fill
+B('j17_shared_lazy_fill_read_before', ['C17'], 'R17.h',
+  (RS, _BR_CLASS, _BR_CLASS + "    _preferred = None\n"),
+  (RS, "            resp_mime = self._default_mime\n",
+       "            resp_mime = self._preferred or self._default_mime\n        if req_format == 'html' and self._preferred is None:\n"
+       "            self._preferred = 'text/html'\n"))
+
+# R17.i: the render paths answer 200 and raise only for an explicitly requested unknown format
+_SR_REJECT = "        if req_format and req_format not in self._format_mime_map:\n"
+_SR_QP = "        req_format = request.args.get(self.qp_name)  # explicit GET query param\n"
+T('j17_status_explicit_200', ['C17'], (RS, 'return Response(context, mimetype="text/plain")', 'return Response(context, status=200, mimetype="text/plain")'))
+B('j17_status_positional_204', ['C17'], 'R17.i', (RS, 'return Response(str(context), mimetype="text/plain")', 'return Response(str(context), 204, mimetype="text/plain")'))
+B('j17_status_keyword_203', ['C17'], 'R17.i', (RS, 'return Response(context, mimetype="text/plain")', 'return Response(context, status=203, mimetype="text/plain")'))
+B('j17_status_code_store', ['C17'], 'R17.i',
+  (RS, "        resp.mimetype_params['charset'] = self.encoding\n        return resp\n\n\nclass JSONPRender",
+       "        resp.mimetype_params['charset'] = self.encoding\n        resp.status_code = 202\n        return resp\n\n\nclass JSONPRender"))
+B('j17_status_named_constant', ['C17'], 'R17.i',
+  (TB, "    _html_doctype = '<!doctype html>'\n", "    _html_doctype = '<!doctype html>'\n    _status = 206\n"),
+  (TB, "mimetype='text/html')", "mimetype='text/html', status=self._status)"))
+T('j17_reject_nested_ifs', ['C17'], (RS, _SR_REJECT, "        if req_format:\n          if req_format not in self.formats:\n"))
+T('j17_reject_table_alias', ['C17'], (RS, _SR_REJECT, "        known = self._format_mime_map\n        if req_format and req_format not in known.keys():\n"))
+B('j17_reject_absent_format', ['C17'], 'R17.i', (RS, _SR_REJECT, "        if req_format not in self._format_mime_map:\n"))
+B('j17_reject_guard_on_other_value', ['C17'], 'R17.i', (RS, _SR_REJECT, "        if request.args and req_format not in self._format_mime_map:\n"))
+B('j17_raise_on_empty_result', ['C17'], 'R17.i', (RS, _SR_QP, "        if not context:\n            raise ValueError('nothing to render')\n" + _SR_QP))
+B('j17_raise_in_tabular', ['C17'], 'R17.i',
+  (TB, "        content_parts = [self._html_wrapper]\n", "        if len(context) == 0:\n            raise LookupError('nothing to tabulate')\n        content_parts = [self._html_wrapper]\n"))
+B('j17_tabular_label_plain', ['C17'], 'R17.e', (TB, "mimetype='text/html')", "mimetype='text/plain')"))
+B('j17_tabular_label_missing', ['C17'], 'R17.e', (TB, "return Response('\\n'.join(content_parts), mimetype='text/html')", "return Response('\\n'.join(content_parts))"))
+T('j17_tabular_label_constant', ['C17'],
+  (TB, "    _html_doctype = '<!doctype html>'\n", "    _html_doctype = '<!doctype html>'\n    _mimetype = 'text/html'\n"),
+  (TB, "mimetype='text/html')", "mimetype=self._mimetype)"))
+
+# R17.k: provenance and precedence of the negotiated mime
+_SR_F = "        resp_mime = self._format_mime_map.get(req_format)\n"
+_SR_A = "        if not resp_mime and request.accept_mimetypes:\n            resp_mime = request.accept_mimetypes.best_match(self.mimetypes)\n"
+_SR_D = "        if resp_mime not in self._mime_format_map:\n            resp_mime = self._default_mime\n"
+T('j17_neg_if_elif_chain', ['C17'],
+  (RS, _SR_NEG, '''        if req_format:
+            resp_mime = self._format_mime_map[req_format]
+        elif request.accept_mimetypes:
+            resp_mime = request.accept_mimetypes.best_match(list(self._format_mime_map.values()))
+        else:
+            resp_mime = None
+        if resp_mime not in self.mimetypes:
+            resp_mime = self._default_mime
+'''))
+T('j17_neg_one_expression', ['C17'],
+  (RS, _SR_F + _SR_A, "        accepted = request.accept_mimetypes\n"
+       "        resp_mime = self._format_mime_map.get(req_format) or (accepted and accepted.best_match(self.mimetypes))\n"))
+T('j17_neg_served_constant', ['C17'], (RS, 'best_match(self.mimetypes)', "best_match(('application/json', 'text/html'))"))
+T('j17_neg_default_conditional_expression', ['C17'],
+  (RS, _SR_D, "        resp_mime = resp_mime if resp_mime in self._mime_format_map else self._default_mime\n"))
+B('j17_neg_accept_first', ['C17'], 'R17.k',
+  (RS, _SR_F + _SR_A, "        resp_mime = None\n        if request.accept_mimetypes:\n            resp_mime = request.accept_mimetypes.best_match(self.mimetypes)\n"
+       "        if not resp_mime:\n            resp_mime = self._format_mime_map.get(req_format)\n"))
+B('j17_neg_default_overrides', ['C17'], 'R17.k', (RS, "        if resp_mime not in self._mime_format_map:\n", "        if resp_mime in self._mime_format_map:\n"))
+B('j17_neg_default_in_else', ['C17'], 'R17.k',
+  (RS, _SR_A + _SR_D, _SR_A + "        else:\n            resp_mime = self._default_mime\n"))
+B('j17_neg_offered_html_only', ['C17'], 'R17.k', (RS, 'best_match(self.mimetypes)', "best_match(['text/html'])"))
+B('j17_neg_offered_formats', ['C17'], 'R17.k', (RS, 'best_match(self.mimetypes)', "best_match(self.formats)"))
+B('j17_neg_format_ignored', ['C17'], 'R17.k', (RS, _SR_F, "        resp_mime = None\n"))
+B('j17_neg_accept_ignored', ['C17'], 'R17.k', (RS, _SR_A, ""))
+B('j17_neg_lookup_by_other_parameter', ['C17'], 'R17.k', (RS, _SR_F, "        resp_mime = self._format_mime_map.get(request.args.get('callback'))\n"))
+B('j17_neg_raw_mime_parameter', ['C17'], 'R17.k', (RS, _SR_F, "        resp_mime = self._format_mime_map.get(req_format) or request.args.get('mime')\n"))
+B('j17_neg_accept_of_other_header', ['C17'], 'R17.k', (RS, _SR_A, "        if not resp_mime and request.accept_languages:\n            resp_mime = request.accept_languages.best_match(self.mimetypes)\n"))
+
+# R17.l: every JSON body is the renderer's own encoder applied to the endpoint result; JSONP is callback( JSON )
+_JR_STREAM = "            json_iter = self.json_encoder.iterencode(context)\n"
+_JR_WHOLE = "            json_iter = [self.json_encoder.encode(context)]\n"
+_JP_JSON = "        json_iter = self.json_encoder.iterencode(context)\n"
+_JP_CHAIN = "        resp_iter = itertools.chain([cb_name, '('], json_iter, [');'])\n"
+T('j17_body_encoder_alias', ['C17'],
+  (RS, "    def __call__(self, context):\n        if self.streaming:\n" + _JR_STREAM + "        else:\n" + _JR_WHOLE,
+       "    def __call__(self, context):\n        encoder = self.json_encoder\n        if self.streaming:\n            json_iter = encoder.iterencode(context)\n"
+       "        else:\n            json_iter = [encoder.encode(context)]\n"),
+  (RS, _JP_CHAIN, "        resp_iter = itertools.chain((cb_name, '('), json_iter, (');',))\n"))
+T('j17_body_bare_encode', ['C17'], (RS, _JR_WHOLE, "            json_iter = self.json_encoder.encode(context)\n"))
+T('j17_jsonp_concatenated_prefix', ['C17'], (RS, _JP_CHAIN, "        resp_iter = itertools.chain([cb_name + '('], json_iter, [')'])\n"))
+T('j17_jsonp_list_concatenation', ['C17'], (RS, _JP_CHAIN, "        resp_iter = [cb_name, '('] + list(json_iter) + [');']\n"))
+B('j17_body_dumps', ['C17'], 'R17.l', (RS, 'import itertools\n', 'import itertools\nimport json\n'),
+  (RS, _JR_WHOLE, "            json_iter = [json.dumps(context, indent=2, sort_keys=True)]\n"))
+B('j17_body_stream_other_encoder', ['C17'], 'R17.l', (RS, _JR_STREAM, "            json_iter = JSONEncoder(indent=2).iterencode(context)\n"))
+B('j17_body_str_of_context', ['C17'], 'R17.l', (RS, _JR_WHOLE, "            json_iter = [self.json_encoder.encode(str(context))]\n"))
+B('j17_body_empty_becomes_null', ['C17'], 'R17.l',
+  (RS, "    def __call__(self, context):\n        if self.streaming:", "    def __call__(self, context):\n        if not context:\n            context = None\n        if self.streaming:"))
+B('j17_body_list_of_stream', ['C17'], 'R17.l', (RS, _JR_WHOLE, "            json_iter = [self.json_encoder.iterencode(context)]\n"))
+B('j17_jsonp_no_paren', ['C17'], 'R17.l', (RS, _JP_CHAIN, "        resp_iter = itertools.chain([cb_name], json_iter, [');'])\n"))
+B('j17_jsonp_paren_before_callback', ['C17'], 'R17.l', (RS, _JP_CHAIN, "        resp_iter = itertools.chain(['(', cb_name], json_iter, [');'])\n"))
+B('j17_jsonp_unterminated', ['C17'], 'R17.l', (RS, _JP_CHAIN, "        resp_iter = itertools.chain([cb_name, '('], json_iter, [';'])\n"))
+B('j17_jsonp_repr_body', ['C17'], 'R17.l', (RS, _JP_JSON, "        json_iter = [repr(context)]\n"))
+B('j17_jsonp_json_twice', ['C17'], 'R17.l', (RS, _JP_CHAIN, "        resp_iter = itertools.chain([cb_name, '('], json_iter, [','], self.json_encoder.iterencode(context), [');'])\n"))
+B('j17_jsonp_without_callback', ['C17'], 'R17.l', (RS, "        if not cb_name:\n            return super(JSONPRender, self).__call__(context)\n", "        if cb_name == 'none':\n            return super(JSONPRender, self).__call__(context)\n"))
+B('j17_jsonp_other_parameter', ['C17'], 'R17.l', (RS, "        cb_name = request.args.get(self.qp_name, None)\n", "        cb_name = request.args.get('jsonp', None) or 'callback'\n"))
+B('j17_jsonp_plain_gets_request', ['C17'], 'R17.l', (RS, "return super(JSONPRender, self).__call__(context)", "return super(JSONPRender, self).__call__(request)"))
+# the dispatch hands on the endpoint result itself; every entry point returns a response on every path
+T('j17_dispatch_keyword_context', ['C17'], (RS, "            return self.json_render(context)\n", "            render = self.json_render\n            return render(context=context)\n"))
+B('j17_dispatch_list_of_context', ['C17'], 'R17.l', (RS, "            return self.json_render(context)\n", "            return self.json_render(list(context))\n"))
+B('j17_dispatch_context_rebound', ['C17'], 'R17.l', (RS, _SR_QP, _SR_QP + "        if isinstance(context, tuple):\n            context = {'items': context}\n"))
+B('j17_dispatch_tabular_gets_str', ['C17'], 'R17.l', (RS, "            return self.tabular_render(context, _route)\n", "            return self.tabular_render(str(context), _route)\n"))
+B('j17_jsonp_falls_off', ['C17'], 'R17.i',
+  (RS, "        if not cb_name:\n            return super(JSONPRender, self).__call__(context)\n", "        if not cb_name:\n            super(JSONPRender, self).__call__(context)\n            return\n"))
+B('j17_json_render_no_return', ['C17'], 'R17.i',
+  (RS, "        resp.mimetype_params['charset'] = self.encoding\n        return resp\n\n\nclass JSONPRender",
+       "        resp.mimetype_params['charset'] = self.encoding\n        if resp.mimetype_params:\n            return resp\n\n\nclass JSONPRender"))
+B('j17_tabular_returns_none_for_empty', ['C17'], 'R17.i',
+  (TB, "        content_parts = [self._html_wrapper]\n", "        if not context:\n            return None\n        content_parts = [self._html_wrapper]\n"))
+
+# R17.l, stream re-chunkers: a generator the JSON body is passed through hands on the text it is given -- no token overtakes
+# buffered ones, none is dropped or repeated (abstract buffer state: empty / holds unemitted tokens / emitted, not cleared)
+_GATHER_LOOP = '''        buf.append(token)
+        held += len(token)
+        if held >= size:
+            yield ''.join(buf)
+            buf, held = [], 0
+'''
+_GATHER_TAIL = "    if buf:\n        yield ''.join(buf)\n"
+
+
+def _gather(loop=_GATHER_LOOP, tail=_GATHER_TAIL, fast=''):
+    helper = ("_CHUNK = 4096\n\n\ndef _gather(tokens, size=_CHUNK):\n    buf, held = [], 0\n    for token in tokens:\n" + fast + loop + tail)
+    return [(RS, 'class JSONRender(object):\n', helper + '\n\nclass JSONRender(object):\n'),
+            (RS, _JR_STREAM, _JR_STREAM + "            json_iter = _gather(json_iter)\n"),
+            (RS, _JP_CHAIN, _JP_CHAIN + "        resp_iter = _gather(resp_iter)\n")]
+
+
+T('j17_rechunk_coalescer', ['C17'], *_gather())
+T('j17_rechunk_flush_before_big', ['C17'], *_gather(fast="        if len(token) >= size:\n            if buf:\n                yield ''.join(buf)\n"
+                                                          "                buf, held = [], 0\n            yield token\n            continue\n"))
+T('j17_rechunk_passthrough', ['C17'], *_gather(loop="        yield token\n", tail=''))
+T('j17_rechunk_clear_method', ['C17'], *_gather(loop="        if not token:\n            continue\n        buf.append(token)\n        held += len(token)\n"
+                                                     "        if held >= size:\n            yield ''.join(buf)\n            buf.clear()\n            held = 0\n"))
+T('j17_body_materialised_stream', ['C17'], (RS, _JR_STREAM, "            json_iter = list(self.json_encoder.iterencode(context))\n"))
+B('j17_rechunk_big_overtakes', ['C17'], 'R17.l', *_gather(fast="        if len(token) >= size:\n            yield token\n            continue\n"))
+B('j17_rechunk_big_overtakes_else', ['C17'], 'R17.l',
+  *_gather(loop="        if len(token) < size:\n            buf.append(token)\n            held += len(token)\n        else:\n            yield token\n"
+                "        if held >= size:\n            yield ''.join(buf)\n            buf, held = [], 0\n"))
+B('j17_rechunk_no_final_flush', ['C17'], 'R17.l', *_gather(tail=''))
+B('j17_rechunk_cleared_without_flush', ['C17'], 'R17.l',
+  *_gather(loop="        buf.append(token)\n        held += len(token)\n        if held >= size:\n            buf, held = [], 0\n"))
+B('j17_rechunk_flush_without_clear', ['C17'], 'R17.l',
+  *_gather(loop="        buf.append(token)\n        held += len(token)\n        if held >= size:\n            yield ''.join(buf)\n            held = 0\n"))
+B('j17_rechunk_token_twice', ['C17'], 'R17.l',
+  *_gather(fast="        if len(token) >= size:\n            if buf:\n                yield ''.join(buf)\n                buf, held = [], 0\n            yield token\n"))
+B('j17_rechunk_short_tokens_dropped', ['C17'], 'R17.l', *_gather(fast="        if len(token) < 2:\n            continue\n"))
+# R17.k: the offered mimes read from a cache the renderer fills itself
+B('j17_neg_cache_filled_with_html_only', ['C17'], 'R17.k',
+  (RS, _BR_CLASS, _BR_CLASS + "    _served_mimes = None\n"),
+  (RS, "        resp_mime = self._format_mime_map.get(req_format)\n",
+       "        if self._served_mimes is None:\n            self._served_mimes = ('text/html',)\n"
+       "        resp_mime = self._format_mime_map.get(req_format)\n"),
+  (RS, "            resp_mime = request.accept_mimetypes.best_match(self.mimetypes)\n",
+       "            resp_mime = request.accept_mimetypes.best_match(self._served_mimes)\n"))
+B('j17_neg_cache_read_unfilled', ['C17'], 'R17.k',
+  (RS, _BR_CLASS, _BR_CLASS + "    _served_mimes = None\n"),
+  (RS, "            resp_mime = request.accept_mimetypes.best_match(self.mimetypes)\n",
+       "            resp_mime = request.accept_mimetypes.best_match(self._served_mimes)\n"
+       "            if self._served_mimes is None:\n                self._served_mimes = tuple(self._format_mime_map.values())\n"))
+
+# R17.m: optional attributes of a FunctionBuilder (None unless the callable supplies them -- pinned boltons) are used as
+# text on the render paths only behind a presence test
+_LBL_GUARD = "    if fb.module:\n        ctx_parts.insert(0, fb.module)\n"
+_LBL_RET = "    return '.'.join(ctx_parts), fb.name, fb.get_invocation_str()\n"
+T('j17_label_module_is_not_none', ['C17'], (S, _LBL_GUARD, "    if fb.module is not None:\n        ctx_parts.insert(0, fb.module)\n"))
+T('j17_label_module_local', ['C17'], (S, _LBL_GUARD, "    module = fb.module\n    if module:\n        ctx_parts.insert(0, module)\n"))
+T('j17_label_module_defaulted', ['C17'], (S, _LBL_GUARD, "    ctx_parts.insert(0, fb.module or '<unknown>')\n"))
+T('j17_label_module_guard_clause', ['C17'],
+  (S, _LBL_GUARD + "\n\n" + _LBL_RET, "    if not fb.module:\n        return '.'.join(ctx_parts), fb.name, fb.get_invocation_str()\n"
+      "    return '.'.join([fb.module] + ctx_parts), fb.name, fb.get_invocation_str()\n"))
+B('j17_label_module_unguarded_insert', ['C17'], 'R17.m', (S, _LBL_GUARD, "    ctx_parts.insert(0, fb.module)\n"))
+B('j17_label_module_in_joined_display', ['C17'], 'R17.m',
+  (S, _LBL_GUARD + "\n\n" + _LBL_RET, "    return '.'.join([fb.module] + ctx_parts), fb.name, fb.get_invocation_str()\n"))
+B('j17_label_module_concatenated', ['C17'], 'R17.m',
+  (S, _LBL_GUARD + "\n\n" + _LBL_RET, "    return fb.module + '.' + '.'.join(ctx_parts), fb.name, fb.get_invocation_str()\n"))
+B('j17_label_module_dereferenced', ['C17'], 'R17.m', (S, _LBL_GUARD, "    ctx_parts.insert(0, fb.module.rpartition('.')[2])\n"))
+B('j17_label_module_local_unguarded', ['C17'], 'R17.m', (S, _LBL_GUARD, "    module = fb.module\n    if ctx_parts:\n        ctx_parts.insert(0, module)\n"))
+B('j17_label_guard_on_other_attribute', ['C17'], 'R17.m', (S, _LBL_GUARD, "    if fb.name:\n        ctx_parts.insert(0, fb.module)\n"))
